@@ -166,7 +166,57 @@ func runC09_8(c *core.Ctx) {
 	}
 	for _, f := range a.funcs {
 		g := f.Graph()
-		const fWGeR = 1
+		const (
+			fWGeR = 1 << iota // w >= r established, or the destination variable was cut to r-w bytes
+		)
+		// local destination variables: v := rb.buf[rb.w:…]
+		type dest struct {
+			low, high ast.Expr
+		}
+		locals := map[types.Object]dest{}
+		ast.Inspect(f.Decl.Body, func(n ast.Node) bool {
+			as, ok := n.(*ast.AssignStmt)
+			if !ok || len(as.Lhs) != len(as.Rhs) {
+				return true
+			}
+			for i, r := range as.Rhs {
+				if se, ok := ast.Unparen(r).(*ast.SliceExpr); ok && flow.FieldOf(f.Info, se.X) == a.buf {
+					if o := flow.ObjOf(f.Info, as.Lhs[i]); o != nil {
+						locals[o] = dest{se.Low, se.High}
+					}
+				}
+			}
+			return true
+		})
+		isRminusW := func(e ast.Expr) bool {
+			lf := linForm{}
+			linOf(f.Info, e, 1, lf, nil)
+			rk, wk := "", ""
+			for k := range lf {
+				_ = k
+			}
+			// keys are printed expressions: find the ones that are rb.r / rb.w by re-walking the terms
+			var terms []struct {
+				e    ast.Expr
+				sign int
+			}
+			addTerms(e, 1, &terms)
+			cr, cw, other := 0, 0, 0
+			for _, t := range terms {
+				switch flow.FieldOf(f.Info, t.e) {
+				case a.r:
+					cr += t.sign
+				case a.w:
+					cw += t.sign
+				default:
+					other++
+				}
+			}
+			_, _ = rk, wk
+			return cr == 1 && cw == -1 && other == 0
+		}
+		var badReslice ast.Node
+		var badWhy string
 		p := &flow.Problem{Must: true}
 		p.Node = func(b *flow.Block, i int, n ast.Node, in uint64) uint64 {
 			for _, l := range flow.Assigned(n) {
@@ -177,6 +227,34 @@ func runC09_8(c *core.Ctx) {
 			for _, call := range flow.Calls(n) {
 				if flow.IsCall(f.Info, call, a.grow) || flow.IsCall(f.Info, call, a.reset) {
 					in = 0
+				}
+			}
+			if as, ok := n.(*ast.AssignStmt); ok && len(as.Lhs) == len(as.Rhs) {
+				for i2, r := range as.Rhs {
+					o := flow.ObjOf(f.Info, as.Lhs[i2])
+					if _, isLocal := locals[o]; !isLocal || o == nil {
+						continue
+					}
+					se, ok := ast.Unparen(r).(*ast.SliceExpr)
+					if !ok {
+						continue
+					}
+					if flow.FieldOf(f.Info, se.X) == a.buf {
+						// (re)defined from the array: what is known about the cursors stays
+						if se.High != nil && flow.FieldOf(f.Info, se.High) == a.r {
+							in |= fWGeR
+						}
+						continue
+					}
+					if flow.ObjOf(f.Info, se.X) == o && se.Low == nil && se.High != nil {
+						// v = v[:K]: K counts from v's own start, which is rb.w
+						if isRminusW(se.High) {
+							in |= fWGeR // one fact for "the destination cannot reach unread bytes": it meets the w >= r branch at the join
+						} else if badReslice == nil {
+							badReslice = as
+							badWhy = "the destination " + o.Name() + " starts at rb.w and is cut with " + exprStr(r) + ": the bound counts from rb.w, so the slice ends at rb.w+" + exprStr(se.High) + " instead of rb.r (it has to be cut to rb.r-rb.w bytes)"
+						}
+					}
 				}
 			}
 			return in
@@ -210,25 +288,33 @@ func runC09_8(c *core.Ctx) {
 				if len(call.Args) != 1 {
 					continue
 				}
-				se, ok := ast.Unparen(call.Args[0]).(*ast.SliceExpr)
-				if !ok || flow.FieldOf(f.Info, se.X) != a.buf {
-					continue
-				}
 				cf := flow.CalleeFunc(f.Info, call)
 				if cf == nil || cf.Pkg() == nil || cf.Pkg().Path() != "io" || cf.Name() != "Read" {
+					continue
+				}
+				var low, high ast.Expr
+				var what string
+				viaLocal := false
+				if se, ok := ast.Unparen(call.Args[0]).(*ast.SliceExpr); ok && flow.FieldOf(f.Info, se.X) == a.buf {
+					low, high, what = se.Low, se.High, exprStr(se)
+				} else if d, ok := locals[flow.ObjOf(f.Info, call.Args[0])]; ok {
+					low, high, what, viaLocal = d.low, d.high, exprStr(call.Args[0]), true
+				} else {
 					continue
 				}
 				k++
 				construct := "Read destination #" + itoa(k) + " bounded"
 				switch {
-				case se.Low == nil || flow.FieldOf(f.Info, se.Low) != a.w:
-					c.Violate(f.Name, construct, se.Pos(), "the destination "+exprStr(se)+" of an external Read does not start at rb.w")
-				case se.High != nil && flow.FieldOf(f.Info, se.High) == a.r:
-					c.Ok(f.Name, construct, se.Pos(), "ends at rb.r")
-				case se.High == nil && before&fWGeR != 0:
-					c.Ok(f.Name, construct, se.Pos(), "open-ended under rb.w >= rb.r")
+				case low == nil || flow.FieldOf(f.Info, low) != a.w:
+					c.Violate(f.Name, construct, call.Args[0].Pos(), "the destination "+what+" of an external Read does not start at rb.w")
+				case badReslice != nil && viaLocal:
+					c.Violate(f.Name, construct, badReslice.Pos(), badWhy+": the reader is offered unread bytes, overwrites them, and rb.w moves past rb.r")
+				case high != nil && flow.FieldOf(f.Info, high) == a.r:
+					c.Ok(f.Name, construct, call.Args[0].Pos(), "ends at rb.r")
+				case high == nil && before&fWGeR != 0:
+					c.Ok(f.Name, construct, call.Args[0].Pos(), "open-ended under rb.w >= rb.r, or cut to rb.r-rb.w bytes where the cursor has wrapped")
 				default:
-					c.Violate(f.Name, construct, se.Pos(), "the reader is offered "+exprStr(se)+" where rb.w >= rb.r is not established: when the write cursor has wrapped in front of the read cursor this slice covers the unread bytes rb.buf[rb.r:], which the reader overwrites, and rb.w moves past rb.r (Buffered() collapses, earlier bytes are lost)")
+					c.Violate(f.Name, construct, call.Args[0].Pos(), "the reader is offered "+what+" where rb.w >= rb.r is not established: when the write cursor has wrapped in front of the read cursor this slice covers the unread bytes rb.buf[rb.r:], which the reader overwrites, and rb.w moves past rb.r (Buffered() collapses, earlier bytes are lost)")
 				}
 			}
 		})
@@ -470,7 +556,7 @@ func ringRegions(a *ringAnch, f *fn) *flow.Solution {
 func init() {
 	register(&core.Rule{ID: "C09.11", Prop: "C09", MinSites: 6,
 		Desc: "a cursor never rests at size: every `rb.r += k` / `rb.r++` (likewise rb.w) is either made where the cursor is known to stay below the other one (r under w > r, w under w < r), or is followed on every path to a return by a wrap that covers equality – `% rb.size`, `== rb.size → 0`, `>= rb.size → -= rb.size`, Reset or grow; a wrap guarded by `>` leaves r == size, which ReadByte indexes and which Buffered/IsFull misread as empty",
-		Run: runC09_11})
+		Run:  runC09_11})
 }
 
 func runC09_11(c *core.Ctx) {
